@@ -4,7 +4,7 @@
    results in the same order, the same proposals stay active, the same key vault is installed — including the behaviour recorded as finding
    D10 (every decision of one end block is taken against the number of keys read before the loop). *)
 From Coq Require Import ZArith Bool List Lia.
-From Sge Require Import Lib.Dec Model.Types Model.Chain Gen.kernels Proofs.GenKernels.
+From Sge Require Import Lib.Dec Model.Types Model.Chain Gen.kernels Proofs.GenOvmK.
 Import ListNotations.
 Open Scope Z_scope.
 
